@@ -185,7 +185,11 @@ impl<Front: SocketHandler> RelayProxyProtocol<Front> {
             };
 
             self.header_size = Some(read_sz);
-            self.frontend_buffer.consume(sz);
+            // The header (and whatever the client sent behind it) stays in
+            // `frontend_buffer`: `back_writable` forwards it verbatim and the
+            // remainder moves into the pipe with the buffer. Consuming the
+            // bytes here dropped the header and left `back_writable` looping
+            // forever on an empty buffer with `cursor_header < header_size`.
             return SessionResult::Continue;
         }
 
